@@ -18,4 +18,6 @@ done
 TRACE_FILE="$T/values.ndjson" tlc -workers 1 -metadir "$T/meta" -config ValuesSelfTest.cfg ValuesSelfTest.tla > "$T/values.out" 2>&1 \
   || { tail -30 "$T/values.out"; echo "value model disagrees with CPython"; exit 1; }
 grep VALUES "$T/values.out"
+# the trace specifications bind: honest recordings accepted, corrupted ones rejected with the named clause
+/verif/check C01 --selftest | grep -v "^WARNING" || { echo "selftest failed"; exit 1; }
 echo "setup ok"
